@@ -39,21 +39,21 @@ def malloc (p : MP) (len : Nat) (m : Mem) : Option Nat × MP × Mem :=
 /-- should the stack be doubled?  (`M->nempties > (M->nallocs >> 8)`) -/
 def wantsDouble (p : MP) : Bool := p.nempties > p.nallocs / 256
 
+/-- "Reset statistics." at the end of the slow path of `mpool_free` -/
+def resetStats (p : MP) : MP := { p with nempties := 0, nallocs := 0 }
+
 /-- `mpool_free(M, p)` for a non-NULL object -/
 def free (p : MP) (obj : Nat) (m : Mem) : MP × Mem :=
   if p.stacklen < p.allocsize then
     ({ p with stack := obj :: p.stack, stacklen := p.stacklen + 1 }, m)
-  else
-    let (p', m') :=
-      if wantsDouble p then
-        match m.malloc ((p.allocsize * 2 * 8) % SZ) with
-        | (true, m1) =>
-          ({ p with allocsize := (p.allocsize * 2) % SZ, dyn := true, stack := obj :: p.stack,
-                    stacklen := p.stacklen + 1 },
-           if p.dyn then m1.free false else m1)
-        | (false, m1) => (p, m1.free false)
-      else (p, m.free false)
-    ({ p' with nempties := 0, nallocs := 0 }, m')
+  else if wantsDouble p then
+    match m.malloc ((p.allocsize * 2 * 8) % SZ) with
+    | (true, m1) =>
+      (resetStats { p with allocsize := (p.allocsize * 2) % SZ, dyn := true, stack := obj :: p.stack,
+                           stacklen := p.stacklen + 1 },
+       if p.dyn then m1.free false else m1)
+    | (false, m1) => (resetStats p, m1.free false)
+  else (resetStats p, m.free false)
 
 /-- `mpool_atexit(M)`: free every cached object, then the stack array if it was allocated -/
 def atexit (p : MP) (m : Mem) : MP × Mem :=
